@@ -370,7 +370,8 @@ func (g *Generator) generateFlattenedUnmarshal(
 ) {
 	fieldGoName := variant.Field.GoName
 	wrapperType := variant.Field.GoIdent.GoName
-	msgType := variant.Field.Message.GoIdent.GoName
+	// (qualified: the variant message may live in another Go package, e.g. a well-known type)
+	msgType := gf.QualifiedGoIdent(variant.Field.Message.GoIdent)
 
 	// Collect all child field JSON names for this variant
 	var childJSONNames []string
@@ -406,7 +407,8 @@ func (g *Generator) generateNestedUnmarshal(
 	fieldGoName := variant.Field.GoName
 	fieldJSONName := variant.Field.Desc.JSONName()
 	wrapperType := variant.Field.GoIdent.GoName
-	msgType := variant.Field.Message.GoIdent.GoName
+	// (qualified: the variant message may live in another Go package, e.g. a well-known type)
+	msgType := gf.QualifiedGoIdent(variant.Field.Message.GoIdent)
 
 	gf.P("// Non-flattened unmarshal: use json.Unmarshal for child UnmarshalJSON support")
 	gf.P(`if variantRaw, exists := raw["`, fieldJSONName, `"]; exists {`)
